@@ -52,7 +52,16 @@ type plainReader struct {
 	n int
 }
 
-func (p *plainReader) Read(b []byte) (int, error) { n, err := p.r.Read(b); p.n += n; return n, err }
+// Read hides ReadByte of the underlying reader. For half of the streams (by the parity of their length) the last
+// bytes are delivered together with io.EOF, as io.Reader allows and flate / iotest.DataErrReader do.
+func (p *plainReader) Read(b []byte) (int, error) {
+	n, err := p.r.Read(b)
+	p.n += n
+	if l, ok := p.r.(interface{ Len() int }); ok && err == nil && n > 0 && l.Len() == 0 && p.n%2 == 0 {
+		return n, io.EOF
+	}
+	return n, err
+}
 
 // catch runs f, converting a panic into (true, message with the top repo frame).
 func catch(f func()) (panicked bool, msg string) {
